@@ -51,6 +51,51 @@ pub proof fn lemma_first_gt_char<T>(s: Seq<Segment<T>>, x: f64, from: int, k: in
     if from < k { lemma_first_gt_char(s, x, from + 1, k); }
 }
 
+pub open spec fn sorted_ends<T>(s: Seq<Segment<T>>) -> bool {
+    (forall|k: int| 0 <= k < s.len() ==> !nan(#[trigger] s[k].end))
+    && (forall|k: int, l: int| 0 <= k <= l < s.len() ==> ord(#[trigger] s[k].end) <= ord(#[trigger] s[l].end))
+}
+/// C02 corollaries (for non-decreasing, non-NaN ends and non-NaN x)
+/// below the first end: the first segment (it extends to -infinity)
+pub proof fn lemma_first_extends<T>(s: Seq<Segment<T>>, x: f64)
+    requires s.len() > 0, sorted_ends(s), !nan(x), ord(x) < ord(s[0].end),
+    ensures sel(s, x) == 0,
+{
+    lemma_first_gt_char(s, x, 0, 0);
+}
+/// at or beyond every end: the last segment (it extends to +infinity)
+pub proof fn lemma_last_extends<T>(s: Seq<Segment<T>>, x: f64)
+    requires s.len() > 0, sorted_ends(s), !nan(x), ord(s[s.len() - 1].end) <= ord(x),
+    ensures sel(s, x) == s.len() - 1,
+{
+    assert forall|j: int| 0 <= j < s.len() implies !fgt(#[trigger] s[j].end, x) by { assert(ord(s[j].end) <= ord(s[s.len() - 1].end)); }
+    lemma_first_gt_char(s, x, 0, s.len() as int);
+}
+/// a breakpoint belongs to the segment on its right: at x == end_i (with a strictly larger end somewhere after) the selected index is > i
+pub proof fn lemma_breakpoint_goes_right<T>(s: Seq<Segment<T>>, x: f64, i: int, j: int)
+    requires sorted_ends(s), 0 <= i < j < s.len(), !nan(x), ord(x) == ord(s[i].end), ord(s[i].end) < ord(s[j].end),
+    ensures i < sel(s, x) <= j, ord(s[sel(s, x)].end) > ord(x),
+{
+    // the first index above x exists (j is one) and is beyond i because ends up to i are <= end_i == x
+    lemma_exists_first_above(s, x, i + 1, j);
+    let k = choose|k: int| i + 1 <= k <= j && fgt(s[k].end, x) && forall|l: int| i + 1 <= l < k ==> !fgt(#[trigger] s[l].end, x);
+    assert forall|l: int| 0 <= l < k implies !fgt(#[trigger] s[l].end, x) by { if l <= i { assert(ord(s[l].end) <= ord(s[i].end)); } }
+    lemma_first_gt_char(s, x, 0, k);
+}
+proof fn lemma_exists_first_above<T>(s: Seq<Segment<T>>, x: f64, lo: int, j: int)
+    requires 0 <= lo <= j < s.len(), fgt(s[j].end, x),
+    ensures exists|k: int| lo <= k <= j && fgt(s[k].end, x) && forall|l: int| lo <= l < k ==> !fgt(#[trigger] s[l].end, x),
+    decreases j - lo,
+{
+    if fgt(s[lo].end, x) {
+        assert(lo <= lo <= j && fgt(s[lo].end, x) && forall|l: int| lo <= l < lo ==> !fgt(#[trigger] s[l].end, x));
+    } else {
+        lemma_exists_first_above(s, x, lo + 1, j);
+        let k = choose|k: int| lo + 1 <= k <= j && fgt(s[k].end, x) && forall|l: int| lo + 1 <= l < k ==> !fgt(#[trigger] s[l].end, x);
+        assert(lo <= k <= j && fgt(s[k].end, x) && forall|l: int| lo <= l < k ==> !fgt(#[trigger] s[l].end, x));
+    }
+}
+
 // trusted contracts of the std functions the body uses (see DESIGN 6/C02)
 pub assume_specification<'a, T, P: FnMut(&'a T) -> bool>
     [ <core::slice::Iter<'a, T> as Iterator>::position ]
